@@ -328,18 +328,18 @@ def tagged(stdout: str, tag: str) -> list:
     """All PrintT payloads of the form <<"tag", ...>> found in TLC's output (robust against
     interleaving of lines from several workers: found by bracket matching)."""
     out = []
-    needle = f'<<"{tag}"'
+    pat = re.compile(r'<<\s*"' + re.escape(tag) + '"')
     i = 0
     while True:
-        i = stdout.find(needle, i)
-        if i < 0:
+        m = pat.search(stdout, i)
+        if not m:
             break
-        p = _P(stdout, i)
+        p = _P(stdout, m.start())
         try:
             out.append(p.value())
             i = p.i
         except Exception:
-            i += len(needle)
+            i = m.end()
     return out
 
 
